@@ -2240,15 +2240,29 @@ impl KotoVm {
 
     // Called from run_equal / run_not_equal to compare the contents of maps
     fn compare_value_maps(&mut self, map_a: KMap, map_b: KMap) -> Result<bool> {
-        if map_a.len() != map_b.len() {
+        // Each map is borrowed once for the whole comparison so that the maps can't be modified
+        // by another thread while they're being compared. A map that's compared with itself is
+        // only borrowed once, a second borrow could otherwise be blocked by a waiting writer.
+        let data_a = map_a.data();
+        let data_b = if map_a.is_same_instance(&map_b) {
+            None
+        } else {
+            Some(map_b.data())
+        };
+        let data_b: &ValueMap = match &data_b {
+            Some(data_b) => data_b,
+            None => &data_a,
+        };
+
+        if data_a.len() != data_b.len() {
             return Ok(false);
         }
 
-        for (key_a, value_a) in map_a.data().iter() {
-            let Some(value_b) = map_b.get(key_a) else {
+        for (key_a, value_a) in data_a.iter() {
+            let Some(value_b) = data_b.get(key_a) else {
                 return Ok(false);
             };
-            match self.run_binary_op(BinaryOp::Equal, value_a.clone(), value_b)? {
+            match self.run_binary_op(BinaryOp::Equal, value_a.clone(), value_b.clone())? {
                 KValue::Bool(true) => {}
                 KValue::Bool(false) => return Ok(false),
                 other => {
